@@ -278,7 +278,7 @@ fn mask_of(servers: &BTreeSet<String>, extra: bool) -> u32 {
 }
 
 /// all cases of one (version, family) shard
-fn cases_for(v: u8, fam: &events::Family, t: &mut Tally, report: &Report, f: &mut dyn FnMut(Case, &mut Tally)) {
+fn cases_for(v: u8, fam: &events::Family, thorough: bool, t: &mut Tally, report: &Report, f: &mut dyn FnMut(Case, &mut Tally)) {
     let ev = &fam.event;
     let fail = |sig: String, detail: String| {
         report.violation(&sig, || detail, || json!({"kind": "sign", "v": v, "family": fam.name}));
@@ -340,6 +340,16 @@ fn cases_for(v: u8, fam: &events::Family, t: &mut Tally, report: &Report, f: &mu
         _ => engine::machinery_error("family without defined signers"),
     };
     let mut masks = vec![0b11111u32, mask_of(&required, false), mask_of(&required, true)];
+    if thorough {
+        // every signer set that contains the required servers, and every set that misses exactly one of them
+        let req = mask_of(&required, false);
+        for m in 1..32u32 {
+            if m & req == req || (req & !m).count_ones() == 1 {
+                masks.push(m);
+            }
+        }
+    }
+    masks.sort();
     masks.dedup();
     for mask in masks {
         if mask == 0 {
@@ -498,7 +508,7 @@ fn main() {
          origin/membership/prev_state; each family in 4 shapes: full, without unsigned, reduced to what redaction keeps under that \
          version (an event redaction leaves untouched), the latter plus unsigned) x all 32 subsets of 5 signing keys (sender server with two keys, event-id server, authorising \
          server, unrelated server) signed with the real hash_and_sign_event; for each: verify_event as signed, on the redacted copy \
-         (reference redaction and ruma's redact); for 3 signer sets (all / exactly required / required + unrelated): every single-key \
+         (reference redaction and ruma's redact); for 3 signer sets (all / exactly required / required + unrelated; thorough tier: every superset of the required servers and every set missing exactly one of them): every single-key \
          mutation (change, delete, kind change, added key at top level, content, unsigned, hashes, third_party_invite, \
          third_party_invite.signed), signature bit flips / removal / non-string, signer removal, unsupported-algorithm entry, key-map \
          removal / bit flip, unknown unrequired signer. Expected Verified::All / Verified::Signatures / Err computed from the spec \
@@ -538,11 +548,13 @@ fn main() {
             }
         }
     }
+    let thorough = args.tier.is_thorough();
+    report.set("mutation_signer_sets", json!(if thorough { "all / exactly required / required + unrelated / every superset of the required servers / every set missing exactly one required server" } else { "all / exactly required / required + unrelated" }));
     report.set("shapes", json!(["full", "no-unsigned", "stale-hashes", "kept-only", "kept-only+unsigned"]));
     par_shards(&report, shards.len(), |i, t| {
         let (v, fam) = (shards[i].0, &shards[i].1);
         let mut n = 0usize;
-        cases_for(v, fam, t, &report, &mut |case, t2| {
+        cases_for(v, fam, thorough, t, &report, &mut |case, t2| {
             t2.states += 1;
             n += 1;
             let (exp, viol) = run_verify(&case, t2);
